@@ -1,13 +1,22 @@
-\* trace acceptor (the deviation switches are not used by the contract; ExactFirst only shapes the excuse of C09_MAP_ORDER)
-SPECIFICATION TSpec
+\* plans: initial mapping - operation - update - operation (2 kinds, one source database spelling each, 16 x 16 updates)
+SPECIFICATION HSpec
 CHECK_DEADLOCK FALSE
+INVARIANTS HPlanOut
 CONSTANTS
-  ExactFirst = FALSE
+  ExactFirst = TRUE
   RelPartRouted = TRUE
   AlterIdxRouted = TRUE
   RecheckBySource = TRUE
   DbProbeWithColl = TRUE
   PrivMapped = TRUE
   SDBs = {"default", "", "other"}
-  Shapes = {"none", "exact", "wholedb", "unrelated", "both"}
+  Shapes = {"none", "exact", "wholedb", "unrelated", "both", "chain", "swap"}
   KindsUsed = {"createDatabase", "dropDatabase", "alterDatabase", "flush", "createIndex", "dropIndex", "alterIndex", "loadCollection", "releaseCollection", "loadPartitions", "releasePartitions", "createCredential", "deleteCredential", "updateCredential", "createRole", "dropRole", "operateUserRole", "operatePrivilege", "createCollection", "dropCollection", "createPartition", "dropPartition", "insert", "delete", "dropPartitionMsg", "dropCollectionMsg", "import", "waitDatabase", "waitCollection", "waitPartition"}
+  StaleMemo = FALSE
+  HKinds = {"loadCollection", "delete"}
+  HSDBs = {"default", "other"}
+  HColls = {"c1"}
+  HUpds = {"exact1", "exact2", "retarget", "wholedb", "wholedb2", "unrelated", "chaindb", "swap"}
+  HUDBs = {"default", "other"}
+  Pattern = "UOUO"
+  MaxSteps = 3
